@@ -1,9 +1,20 @@
 (* Assembly of the simulation cases. *)
 From Coq Require Import ZArith NArith List Bool Lia.
-From KV.comp Require Import Ast0 Sem0 Instr0 Comp0 VM0 Known0 InstrLemmas CompLemmas SimBase SimExpr SimExpr2 SimCmp.
+From KV.comp Require Import Ast0 Sem0 Instr0 Comp0 VM0 Known0 InstrLemmas CompLemmas SemLemmas SimBase SimExpr SimExpr2 SimCmp SimQ SimIf.
 Import ListNotations.
 Open Scope N_scope.
 Ltac Zify.zify_post_hook ::= Z.to_euclidean_division_equations.
+
+(* the fragment covered by the proved theorem (the compiler / VM / Sem models cover all of Core-0) *)
+Fixpoint frag (e : expr) : bool :=
+  match e with
+  | ENull | EBool _ | EInt _ | EId _ => true
+  | ENested a | ENeg a | ENot a | EAssign _ a | EOpAssign _ _ a => frag a
+  | EArith _ a b | ECmp _ a b | ELogic _ a b => frag a && frag b
+  | EBlock es => all_list frag es
+  | EIf c t elifs els => frag c && frag t && all_arms frag elifs && all_opt frag els
+  | _ => false
+  end.
 
 Section SimA.
   Variable pool : list pentry.
@@ -48,38 +59,94 @@ Section SimA.
         rewrite PF. reflexivity.
   Qed.
 
-  Lemma sim_expr_chain : forall e, frag e = true -> P pool e /\ ChainP pool e.
+  Lemma leaf_chain : forall e, Q pool e -> is_cmp e = false ->
+    wf_expr e = true -> esc e = false -> ChainP pool e.
+  Proof. intros e HQ NC WF NE. apply chain_leaf; [assumption|]. apply Q_to_P; assumption. Qed.
+
+  Lemma op_Q : forall e, (wf_expr e = true -> esc e = false /\ P pool e) -> Q pool e.
+  Proof. intros e H WF. destruct (H WF) as (NE & HP). exact (P_to_Q pool e HP NE WF). Qed.
+
+  Lemma sim_all : forall e, frag e = true ->
+    Q pool e /\ (wf_expr e = true -> esc e = false -> ChainP pool e).
   Proof.
-    induction e using expr_ind2; intros Fr; try discriminate Fr; cbn [frag] in Fr;
-      try (apply andb_prop in Fr as [Fa Fb]).
+    induction e using expr_ind2; intros Fr; try discriminate Fr; cbn [frag] in Fr.
     - assert (X : P pool ENull).
       { intros r st out st' c H W _. eapply (lit_case pool ENull ISetNull VNull); eauto. }
-      split; [exact X|apply chain_leaf; auto].
+      assert (XQ : Q pool ENull) by (apply P_to_Q; auto).
+      split; [exact XQ|apply leaf_chain; auto].
     - assert (X : P pool (EBool b)).
       { intros r st out st' c H W _.
         eapply (lit_case pool (EBool b) (if b then ISetTrue else ISetFalse) (VBool b)); eauto.
         all: intros; destruct b; reflexivity. }
-      split; [exact X|apply chain_leaf; auto].
-    - split; [apply int_case|apply chain_leaf; auto; apply int_case].
-    - split; [apply id_case|apply chain_leaf; auto; apply id_case].
+      assert (XQ : Q pool (EBool b)) by (apply P_to_Q; auto).
+      split; [exact XQ|apply leaf_chain; auto].
+    - assert (XQ : Q pool (EInt z)) by (apply P_to_Q; auto; apply int_case).
+      split; [exact XQ|apply leaf_chain; auto].
+    - assert (XQ : Q pool (EId x)) by (apply P_to_Q; auto; apply id_case).
+      split; [exact XQ|apply leaf_chain; auto].
     - destruct (IHe Fr) as (X & _).
-      split; [apply nested_case; exact X|apply chain_leaf; auto; apply nested_case; exact X].
+      assert (XQ : Q pool (ENested e)) by (apply nestedQ; exact X).
+      split; [exact XQ|apply leaf_chain; auto].
     - destruct (IHe Fr) as (X & _).
-      split; [apply neg_case; exact X|apply chain_leaf; auto; apply neg_case; exact X].
+      assert (XQ : Q pool (ENeg e)).
+      { apply op_Q. intros WF. cbn [wf_expr] in WF. apply andb_prop in WF as [NE WFa]. apply negb_true_iff in NE.
+        split; [exact NE|]. apply neg_case. apply Q_to_P; auto. }
+      split; [exact XQ|apply leaf_chain; auto].
     - destruct (IHe Fr) as (X & _).
-      split; [apply not_case; exact X|apply chain_leaf; auto; apply not_case; exact X].
-    - destruct (IHe1 Fa) as (X1 & _). destruct (IHe2 Fb) as (X2 & _).
-      split; [apply arith_case; assumption|apply chain_leaf; auto; apply arith_case; assumption].
-    - destruct (IHe1 Fa) as (X1 & C1). destruct (IHe2 Fb) as (X2 & C2).
-      split; [apply cmp_case; assumption|apply chain_node; assumption].
-    - destruct (IHe1 Fa) as (X1 & _). destruct (IHe2 Fb) as (X2 & _).
-      split; [apply logic_case; assumption|apply chain_leaf; auto; apply logic_case; assumption].
+      assert (XQ : Q pool (ENot e)).
+      { apply op_Q. intros WF. cbn [wf_expr] in WF. apply andb_prop in WF as [NE WFa]. apply negb_true_iff in NE.
+        split; [exact NE|]. apply not_case. apply Q_to_P; auto. }
+      split; [exact XQ|apply leaf_chain; auto].
+    - apply andb_prop in Fr as [Fa Fb]. destruct (IHe1 Fa) as (X1 & _). destruct (IHe2 Fb) as (X2 & _).
+      assert (XQ : Q pool (EArith o e1 e2)).
+      { apply op_Q. intros WF. cbn [wf_expr] in WF. apply andb_prop in WF as [WF WFb]. apply andb_prop in WF as [WF WFa].
+        apply andb_prop in WF as [NEa NEb]. apply negb_true_iff in NEa, NEb.
+        split; [cbn; rewrite NEa, NEb; reflexivity|]. apply arith_case; apply Q_to_P; auto. }
+      split; [exact XQ|apply leaf_chain; auto].
+    - apply andb_prop in Fr as [Fa Fb]. destruct (IHe1 Fa) as (X1 & C1). destruct (IHe2 Fb) as (X2 & C2).
+      assert (XP : wf_expr (ECmp o e1 e2) = true -> P pool (ECmp o e1 e2)).
+      { intros WF. cbn [wf_expr] in WF. apply andb_prop in WF as [WF WFb]. apply andb_prop in WF as [WF WFa].
+        apply andb_prop in WF as [NEa NEb]. apply negb_true_iff in NEa, NEb.
+        apply cmp_case; [apply Q_to_P; auto|apply C2; auto]. }
+      split.
+      + apply op_Q. intros WF. split; [|apply XP; exact WF].
+        cbn [wf_expr] in WF. apply andb_prop in WF as [WF WFb]. apply andb_prop in WF as [WF WFa].
+        apply andb_prop in WF as [NEa NEb]. apply negb_true_iff in NEa, NEb. cbn. rewrite NEa, NEb. reflexivity.
+      + intros WF NE. cbn [wf_expr] in WF. apply andb_prop in WF as [WF WFb]. apply andb_prop in WF as [WF WFa].
+        apply andb_prop in WF as [NEa NEb]. apply negb_true_iff in NEa, NEb.
+        apply chain_node; [apply Q_to_P; auto|apply C2; auto].
+    - apply andb_prop in Fr as [Fa Fb]. destruct (IHe1 Fa) as (X1 & _). destruct (IHe2 Fb) as (X2 & _).
+      assert (XQ : Q pool (ELogic o e1 e2)).
+      { apply op_Q. intros WF. cbn [wf_expr] in WF. apply andb_prop in WF as [WF WFb]. apply andb_prop in WF as [WF WFa].
+        apply andb_prop in WF as [NEa NEb]. apply negb_true_iff in NEa, NEb.
+        split; [cbn; rewrite NEa, NEb; reflexivity|]. apply logic_case; apply Q_to_P; auto. }
+      split; [exact XQ|apply leaf_chain; auto].
     - destruct (IHe Fr) as (X & _).
-      split; [apply assign_case; exact X|apply chain_leaf; auto; apply assign_case; exact X].
+      assert (XQ : Q pool (EAssign x e)).
+      { apply op_Q. intros WF. cbn [wf_expr] in WF. apply andb_prop in WF as [NE WFa]. apply negb_true_iff in NE.
+        split; [exact NE|]. apply assign_case. apply Q_to_P; auto. }
+      split; [exact XQ|apply leaf_chain; auto].
     - destruct (IHe Fr) as (X & _).
-      split; [apply opassign_case; exact X|apply chain_leaf; auto; apply opassign_case; exact X].
+      assert (XQ : Q pool (EOpAssign o x e)).
+      { apply op_Q. intros WF. cbn [wf_expr] in WF. apply andb_prop in WF as [NE WFa]. apply negb_true_iff in NE.
+        split; [exact NE|]. apply opassign_case. apply Q_to_P; auto. }
+      split; [exact XQ|apply leaf_chain; auto].
+    - assert (XQ : Q pool (EBlock es)).
+      { apply blockQ. induction es as [|e0 rest IHr]; [constructor|].
+        inversion H; subst. cbn [all_list] in Fr. apply andb_prop in Fr as [F0 Fr].
+        constructor; [apply H2; assumption|apply IHr; assumption]. }
+      split; [exact XQ|apply leaf_chain; auto].
+    - apply andb_prop in Fr as [Fr Fe]. apply andb_prop in Fr as [Fr Fl].
+      apply andb_prop in Fr as [Fc Ft].
+      assert (XQ : Q pool (EIf e1 e2 elifs els)).
+      { apply ifQ.
+        - apply IHe1; assumption.
+        - apply IHe2; assumption.
+        - clear - H Fl. induction elifs as [|[c0 t0] rest IHr]; [constructor|].
+          inversion H; subst. cbn [all_arms] in Fl. apply andb_prop in Fl as [Fl Fr].
+          apply andb_prop in Fl as [F1 F2]. destruct H2 as (Hc & Ht). cbn [fst snd] in *.
+          constructor; [split; [apply Hc|apply Ht]; assumption|apply IHr; assumption].
+        - intros e0 E0. subst els. apply (H0 e0 eq_refl). exact Fe. }
+      split; [exact XQ|apply leaf_chain; auto].
   Qed.
-
-  Lemma sim_expr : forall e, frag e = true -> P pool e.
-  Proof. intros e Fr. apply sim_expr_chain. assumption. Qed.
 End SimA.
